@@ -692,6 +692,28 @@ fn c17(src: &str) -> R {
 fn c14(src: &str) -> R {
     let r = lex(src)?;
     let t = toks(&r.buffer)?;
+    // a ')' still open at end of input: a call `%name(...` without quotes, comments or macro triggers inside must be closed
+    // by exactly as many zero-width RPAREN tokens at the end of input as parentheses are open, with the error there
+    if let Some(p) = src.find('(') {
+        let name = &src[..p];
+        let body = &src[p..];
+        if matches!(name, "%m" | "%upcase" | "%eval" | "%str")
+            && !body.contains(|c: char| matches!(c, '\'' | '"' | '%' | '&' | '/' | '*' | ';'))
+        {
+            let open = body.matches('(').count() as i64 - body.matches(')').count() as i64;
+            let mut depth = 0i64;
+            let balanced_prefix = body.chars().all(|c| { if c == '(' { depth += 1 } else if c == ')' { depth -= 1 }; depth >= 1 });
+            if open >= 1 && balanced_prefix {
+                let n = t.iter().filter(|k| k.ty == TokenType::RPAREN && k.b0 == src.len() && k.b1 == src.len()).count() as i64;
+                if n != open {
+                    return Err(format!("{open} parenthes(es) still open at end of input, {n} zero-width RPAREN recovery token(s) there"));
+                }
+                if !r.errors.iter().any(|e| e.error_kind() == ErrorKind::MissingExpectedRParen && e.at_byte_offset() as usize == src.len()) {
+                    return Err("parentheses still open at end of input but no MissingExpectedRParen reported there".into());
+                }
+            }
+        }
+    }
     if let Some(rest) = src.strip_prefix("%do ") {
         if let Some(k) = rest.find(" %to ") {
             let head = &rest[..k];
@@ -830,7 +852,7 @@ fn fragments(prop: &str) -> Vec<&'static str> {
         "C07" => vec!["%str(", "%%", "''", "\"\"", "%'", "'x", "\"x", "+f", "%(", "&&", "%nrstr(", "41", "0g"],
         "C08" => vec!["0", "9", "e", "E", "+", "-", "f", "%eval(", "%sysevalf(", "00000000000000000000", "18446744073709551615", "18446744073709551616", "1e5", "0fx", " x", "1.e5"],
         "C13" | "C18" => vec!["%m(", "%macro ", "%l:", "%if ", "%then ", "%else ", "%do;", "%end;", "%let ", "/*c*/", "%str(", "%eval("],
-        "C09" | "C14" => vec!["%do ", "%m", "%to ", "%let ", "%eval(", "%scan(", "%if ", "%then ", "%macro ", "%end"],
+        "C09" | "C14" => vec!["%do ", "%m", "%to ", "%let ", "%eval(", "%scan(", "%if ", "%then ", "%macro ", "%end", "%upcase(", "%m(", "b"],
         "C10" => vec!["%eval(", "%str(", "%do ", "%scan(", "datalines;", "%m", ":"],
         "C06" | "C11" => vec!["datalines4;", "datalines;", "datalines", ";;;;", ";;", "data a;", "/*", "*/", "cards;", "\u{a0}", "\u{3000}", "\u{301}", "\u{663}"],
         "C04" | "C05" | "C02" | "C03" | "C17" => vec!["/*", "*/", "%m(", "😀", "%str(", "datalines;", "\u{feff}", "%*", "%let ", "%ю", "юа", "%eval(", "%if ", "$", "%put "],
